@@ -72,7 +72,12 @@ class Ctx:
 
     def check(self, cond, kind, msg=""):
         if not cond:
-            self.fail(kind, msg() if callable(msg) else msg)
+            if callable(msg):
+                try:
+                    msg = msg()
+                except Exception as e:  # noqa - the message is a courtesy: formatting what broken code returned must not
+                    msg = f"(no detail: formatting the message raised {type(e).__name__}: {e})"  # turn a finding into a harness error
+            self.fail(kind, msg)
         return bool(cond)
 
     def label(self, *names):
